@@ -264,17 +264,91 @@ def run_cli(cmd, d, stdin=None):
     return subprocess.run([sys.executable, '-W', 'ignore', '-m', 'rbql'] + cmd, env=e, cwd=d, input=stdin, stdout=subprocess.PIPE, stderr=subprocess.PIPE, timeout=120)
 
 
+def js_text(v, sub):
+    if v is None:
+        return ''
+    if v is True or v is False:
+        return 'true' if v else 'false'
+    if isinstance(v, float):
+        return str(int(v)) if v == int(v) and abs(v) < 1e15 else repr(v)
+    if isinstance(v, list):
+        return sub.join(js_text(x, sub) for x in v)
+    return str(v)
+
+
+def js_entry_points(res, node, case, q_csv, inp, dlm, pol, cli_dlm, cd, n, has_header):
+    an, bn = case['a_names'], case['b_names']
+    ctx = qast.Ctx(an, bn)
+    qjs = qast.render(case['q'], ctx, 'js')
+    qjs_csv = qast.render(q_csv, ctx, 'js')
+    o = node.call({'op': 'query_table', 'query': qjs, 'input': case['A'], 'join': case['B'], 'input_cols': an, 'join_cols': bn})
+    res.evaluations += 1
+    res.count('js_entry_point_cases')
+    cs = dict(case, query_text_js=qjs, engine='js')
+    if o['error'] is not None:
+        res.count('js_entry_point_cases_reference_fails')
+        return
+    flat = [v for r in o['out'] for v in r]
+    if any(isinstance(v, dict) for v in flat) or any(isinstance(v, float) and v != int(v) for v in flat):
+        return      # cells whose CSV text depends on number formatting are C10's subject
+    sub = '|' if dlm != '|' else ';'
+    exp_rows = [[js_text(v, sub) for v in r] for r in o['out']]
+    exp_header = list(o['header']) if o['header'] else None
+
+    def cmp(front, data, err):
+        res.evaluations += 1
+        res.count('front_end:' + front)
+        c2 = dict(cs, front_end=front)
+        if err is not None:
+            res.violation('js:front-end-error:' + front, '[%s] %s failed: %s ; JS query_table gives %r' % (front, qjs_csv, err, exp_rows), c2)
+            return
+        rows, hdr = parse_out(data, dlm, pol, exp_header is not None)
+        if rows != exp_rows:
+            res.violation('js:front-end-rows-differ:' + front, '[%s] %s -> %r ; JS query_table -> %r (A=%r B=%r names=%r)' % (front, qjs_csv, rows, exp_rows, case['A'], case['B'], an), c2)
+        elif (list(hdr) if hdr else None) != exp_header:
+            res.violation('js:front-end-header-differs:' + front, '[%s] %s -> header %r ; JS query_table -> %r' % (front, qjs_csv, hdr, exp_header), c2)
+
+    for bulk in (False, True):
+        outp = os.path.join(cd, 'js_out_%d_%d.csv' % (n, bulk))
+        r = node.call({'op': 'query_csv_files', 'query': qjs_csv, 'input_path': inp, 'delim': dlm, 'policy': pol, 'output_path': outp, 'out_delim': dlm, 'out_policy': pol,
+                       'encoding': 'utf-8', 'with_headers': has_header, 'bulk_read': bulk})
+        err = None
+        if r['error'] is not None:
+            err = '%s: %s' % (r['error']['cls'], r['error']['msg'][:100])
+        elif r['out_hex'] is None:
+            err = 'no output file'
+        cmp('js-query_csv-bulk' if bulk else 'js-query_csv-stream', bytes.fromhex(r['out_hex'] or ''), err)
+    if n % 4 == 0:
+        e = dict(os.environ, HOME=cd)
+        base = ['node', os.path.join(env.REPO, 'rbql-js', 'cli_rbql.js'), '--delim', cli_dlm, '--policy', pol, '--query', qjs_csv, '--input', inp] + (['--with-headers'] if has_header else [])
+        outp = os.path.join(cd, 'js_cli_out_%d.csv' % n)
+        to_file = n % 8 == 0
+        p = subprocess.run(base + (['--output', outp] if to_file else []), env=e, cwd=cd, stdout=subprocess.PIPE, stderr=subprocess.PIPE, timeout=120)
+        res.count('js_cli_runs')
+        # a byte order mark in the input is reported on stderr and does not change the exit status
+        if p.returncode != 0 or (to_file and p.stdout):
+            res.violation('js:cli-exit-status-or-stdout', '[js cli] %s: exit %d stdout %r stderr %r' % (qjs_csv, p.returncode, p.stdout[:80], p.stderr[-200:]), dict(cs, front_end='js-cli'))
+        else:
+            data = open(outp, 'rb').read() if to_file else p.stdout
+            cmp('js-cli-file' if to_file else 'js-cli-stdout', data, None)
+
+
 def run_shard(spec, res):
     ns = env.import_rbql()
     rng = random.Random(spec['seed'] * 982451653 + spec['i'])
     UI, UW, UR = make_user_classes(ns)
     d = tempfile.mkdtemp(prefix='rv-c13-')
+    jsnode = None
     try:
         if spec['kind'] == 'failing':
             return failing_leg(ns, res, spec, d, rng)
         if spec['kind'] == 'options':
             return options_leg(ns, res, spec, d, rng)
         import pandas as pd
+        from ..js import bridge
+        jsnode = bridge.Node.start()
+        if jsnode is None:
+            res.notes.append('js entry points: unavailable (no node)')
         for n in range(spec['n']):
             idx = n * spec['k'] + spec['i']
             case = gen_case(rng, idx)
@@ -504,9 +578,15 @@ def run_shard(spec, res):
                         rows, hdr = parse_out(p.stdout, ',', 'quoted_rfc', out_has_header)
                         cmp('cli-sqlite', rows, hdr)
                 os.unlink(db)
+            # 6. the entry points of the JS package: query_table (arrays) is the reference there; query_csv (stream and bulk reading) and the node
+            #    command line (file -> file, file -> stdout) over the same files must give the same table and header
+            if jsnode is not None and common.js_supported(case) and n % 2 == 0:
+                js_entry_points(res, jsnode, case, q_csv, inp, dlm, pol, cli_dlm, cd, n, has_header)
             if n % 37 == 0:
                 res.sample({'query': qtext, 'query_csv': qtext_csv, 'A': A, 'B': B, 'names': an, 'reference_rows': exp_rows[:4], 'front_ends': 8})
     finally:
+        if jsnode is not None:
+            jsnode.close()
         shutil.rmtree(d, ignore_errors=True)
 
 
@@ -803,8 +883,8 @@ def plan(tier, seed):
 def summarize(tier, seed, m):
     fe = {k[10:]: v for k, v in m['counters'].items() if k.startswith('front_end:')}
     return {
-        'rule': 'rectangular string tables (0-5 rows, 1-4 columns, cells with spaces, quotes, commas, non-ASCII, empty; one case in six with line breaks inside cells, run through the quoted_rfc dialect; duplicated column names in 15% of the headed cases; one case in five (quoted policies) written the way a spreadsheet exports it - a UTF-8 byte order mark and every field quoted; one case in eleven with records shorter or longer than the first, run through the front-ends that can hold such a table; no tabs) with and without header; type-agnostic structured queries (select / where / order / distinct / distinct count / top / inner join / update / except / aggregates) rotating systematically over clause combinations; a case whose reference run fails (runtime errors, and a column referred to as a.NAME where the header says name - one headed case in thirteen) must fail through every entry point as well; each executed through query_table (reference) and through 8 entry points: rbql.query with user-written iterator / writer / registry classes, query_csv, CLI file -> file and stdin -> stdout in the three output formats, query_pandas_dataframe, query_sqlite_to_csv, CLI sqlite (with --input, and without it when the database holds one table); plus failing queries (parsing, execution, IO, syntax) x {file, stdout, sqlite} for exit status / Error [type] on stderr, and warning routing; plus an options leg over the parameters of the CSV entry points, each compared with query_table over the same data: comment lines (8 prefixes, before the header, between records, at the end, in the join file too) with comment_prefix / --comment-prefix, user variables and functions from an init source (user_init_code, --init-source-file, ~/.rbql_init_source.py under a private HOME; CLI sqlite too), latin-1 files with cells over the whole 0x80-0xff range and --encoding latin-1, a caller flag that says the opposite of what the files are, put right by WITH (header) / WITH (noheader) in the query, and the policy the command line picks when --policy is left out (quoted for , and ; / whitespace for a space / simple otherwise) with a cell whose CSV form depends on the policy. distinct_nontrivial = distinct (query, tables) with a non-empty result + failing scenarios.',
-        'required': ['cases', 'bom_quote_all_cases', 'multiline_cases', 'ragged_cases', 'failing_reference_cases', 'miscased_column_reference_cases', 'failing_reference_front_end:sqlite', 'failing_reference_front_end:pandas', 'failing_reference_front_end:query_csv', 'front_end:query+user-classes', 'front_end:query_csv', 'front_end:pandas', 'front_end:sqlite', 'front_end:cli-sqlite', 'cli_sqlite_default_table_runs', 'front_end:cli-file-tsv', 'front_end:cli-file-csv', 'front_end:cli-file-input', 'front_end:cli-stdin-stdout-csv', 'cli_failing_runs', 'cli_usage_error_runs', 'cli_failing_runs_empty_message', 'cli_warning_runs', 'option_cases:comment', 'option_cases:init', 'option_cases:latin1', 'option_cases:defpolicy', 'option_cases:withmod', 'front_end:cli-file+comment', 'front_end:cli-stdin+init', 'front_end:cli-sqlite+init', 'front_end:query_csv+latin1', 'front_end:cli-file+defpolicy'],
+        'rule': 'rectangular string tables (0-5 rows, 1-4 columns, cells with spaces, quotes, commas, non-ASCII, empty; one case in six with line breaks inside cells, run through the quoted_rfc dialect; duplicated column names in 15% of the headed cases; one case in five (quoted policies) written the way a spreadsheet exports it - a UTF-8 byte order mark and every field quoted; one case in eleven with records shorter or longer than the first, run through the front-ends that can hold such a table; no tabs) with and without header; type-agnostic structured queries (select / where / order / distinct / distinct count / top / inner join / update / except / aggregates) rotating systematically over clause combinations; a case whose reference run fails (runtime errors, and a column referred to as a.NAME where the header says name - one headed case in thirteen) must fail through every entry point as well; each executed through query_table (reference) and through 8 entry points: rbql.query with user-written iterator / writer / registry classes, query_csv, CLI file -> file and stdin -> stdout in the three output formats, query_pandas_dataframe, query_sqlite_to_csv, CLI sqlite (with --input, and without it when the database holds one table); every second language-neutral case also through the entry points of the JS package - query_table over arrays as its reference, query_csv (stream and bulk reading) and the node command line (file -> file, file -> stdout) over the same files: same table and header, exit 0, nothing but the table on stdout; plus failing queries (parsing, execution, IO, syntax) x {file, stdout, sqlite} for exit status / Error [type] on stderr, and warning routing; plus an options leg over the parameters of the CSV entry points, each compared with query_table over the same data: comment lines (8 prefixes, before the header, between records, at the end, in the join file too) with comment_prefix / --comment-prefix, user variables and functions from an init source (user_init_code, --init-source-file, ~/.rbql_init_source.py under a private HOME; CLI sqlite too), latin-1 files with cells over the whole 0x80-0xff range and --encoding latin-1, a caller flag that says the opposite of what the files are, put right by WITH (header) / WITH (noheader) in the query, and the policy the command line picks when --policy is left out (quoted for , and ; / whitespace for a space / simple otherwise) with a cell whose CSV form depends on the policy. distinct_nontrivial = distinct (query, tables) with a non-empty result + failing scenarios.',
+        'required': ['cases', 'bom_quote_all_cases', 'multiline_cases', 'ragged_cases', 'failing_reference_cases', 'miscased_column_reference_cases', 'failing_reference_front_end:sqlite', 'failing_reference_front_end:pandas', 'failing_reference_front_end:query_csv', 'front_end:query+user-classes', 'front_end:query_csv', 'front_end:pandas', 'front_end:sqlite', 'front_end:cli-sqlite', 'cli_sqlite_default_table_runs', 'js_entry_point_cases', 'front_end:js-query_csv-stream', 'front_end:js-query_csv-bulk', 'front_end:js-cli-file', 'front_end:js-cli-stdout', 'front_end:cli-file-tsv', 'front_end:cli-file-csv', 'front_end:cli-file-input', 'front_end:cli-stdin-stdout-csv', 'cli_failing_runs', 'cli_usage_error_runs', 'cli_failing_runs_empty_message', 'cli_warning_runs', 'option_cases:comment', 'option_cases:init', 'option_cases:latin1', 'option_cases:defpolicy', 'option_cases:withmod', 'front_end:cli-file+comment', 'front_end:cli-stdin+init', 'front_end:cli-sqlite+init', 'front_end:query_csv+latin1', 'front_end:cli-file+defpolicy'],
         'extra': {'front_end_comparisons': fe},
         'assumptions': ['query_table is the reference (pinned by C01-C05, C07)', 'types are not compared across back ends (CSV and pandas stringify): cells are compared after the stringification every CSV sink applies', 'scratch files are named in.csv / jn.csv / in_<n>.csv / jn_<n>.csv in a directory c<n> per case: a path containing an a./b. token under a header is the C08 known finding, not a front-end difference'],
     }
